@@ -136,6 +136,460 @@ type invSite struct {
 	what string
 }
 
+// ---------------------------------------------------------------------------------------------------------
+// The invariant must hold whenever a renderer can run, i.e. at the exits of the functions the API exposes.  An
+// unexported helper that is only ever called statically from mq functions may leave it broken for its caller to
+// repair (a decoder split into stages: one reads the flags, the next allocates the will): a flag write in such a
+// helper that is not repaired before the helper returns is *lifted* to every call site, where the call then counts
+// as a flag write of the caller.  Conversely a call to a helper that stores f non-nil on all its paths counts as a
+// store of f, and a call to a helper that re-establishes the invariant whatever it was on entry (it tests the
+// flag and stores f on the true side) repairs everything written before it.
+
+type invGW struct {
+	ins    ssa.Instruction
+	obj    ssa.Value // the *T whose flag is written
+	maySet bool
+	how    string
+	lifted bool   // a call to a helper that may return with the invariant broken
+	bits   bitSum // the bits the write may newly set, in terms of the enclosing function's parameters (all: unknown)
+}
+
+type invFn struct {
+	fn      *ssa.Function
+	pr      *Prover
+	gwrites []invGW
+}
+
+type invSum struct{ storesF, establishes bool }
+
+type invAn struct {
+	p      *Prog
+	inv    FlagInv
+	fns    map[*ssa.Function]*invFn
+	sums   map[string]invSum
+	brk    map[string]int // 0 unknown, 1 no, 2 yes
+	active map[string]bool
+	gname  string
+	fname  string
+}
+
+func (an *invAn) isField(a ssa.Value, idx int) (*ssa.FieldAddr, bool) {
+	fa, ok := a.(*ssa.FieldAddr)
+	if !ok || fa.Field != idx {
+		return nil, false
+	}
+	pt, ok := fa.X.Type().Underlying().(*types.Pointer)
+	if !ok || !types.Identical(pt.Elem(), an.inv.T) {
+		return nil, false
+	}
+	return fa, true
+}
+
+func (an *invAn) isObjPtr(t types.Type) bool {
+	pt, ok := t.Underlying().(*types.Pointer)
+	return ok && types.Identical(pt.Elem(), an.inv.T)
+}
+
+// internal: fn is an unexported function that is only called statically from inside the package.
+func (an *invAn) internal(fn *ssa.Function) bool {
+	if fn == nil || fn.Blocks == nil || fn.Parent() != nil || token.IsExported(fn.Name()) || fn.Synthetic != "" {
+		return false
+	}
+	sites := an.p.allEffects().callSitesOf[fn]
+	if len(sites) == 0 {
+		return false
+	}
+	for _, s := range sites {
+		if s.Common().IsInvoke() || s.Common().StaticCallee() != fn {
+			return false
+		}
+		if _, isCall := s.(*ssa.Call); !isCall {
+			return false
+		}
+	}
+	return true
+}
+
+func (an *invAn) fnOf(fn *ssa.Function) *invFn {
+	if f, ok := an.fns[fn]; ok {
+		return f
+	}
+	p, inv := an.p, an.inv
+	f := &invFn{fn: fn}
+	an.fns[fn] = f
+	if fn.Blocks == nil {
+		return f
+	}
+	f.pr = NewProver(p, fn)
+	f.pr.assumeContracts()
+	prv := f.pr
+	for _, b := range fn.Blocks {
+		for _, ins := range b.Instrs {
+			fa, ok := ins.(*ssa.FieldAddr)
+			if !ok {
+				continue
+			}
+			if _, isG := an.isField(fa, inv.G); !isG {
+				continue
+			}
+			for _, r := range *fa.Referrers() {
+				switch x := r.(type) {
+				case *ssa.DebugRef, *ssa.UnOp:
+				case *ssa.Store:
+					if x.Addr != ssa.Value(fa) {
+						f.gwrites = append(f.gwrites, invGW{ins: x, obj: fa.X, maySet: true, how: "the address of the flag field is stored"})
+						continue
+					}
+					isOld := func(v ssa.Value) bool {
+						ld, ok := v.(*ssa.UnOp)
+						if !ok || ld.Op != token.MUL {
+							return false
+						}
+						ofa, ok := an.isField(ld.X, inv.G)
+						if !ok || prv.key(stripNilChk(ofa.X)) != prv.key(stripNilChk(fa.X)) {
+							return false
+						}
+						return prv.verAt == nil || prv.loadVer[ld] == prv.verAt(x, classOf(fa))
+					}
+					ms := p.maySet(x.Val, isOld, 0)
+					if ms.pure() && ms.mask&inv.Mask == 0 {
+						f.gwrites = append(f.gwrites, invGW{ins: x, obj: fa.X, how: fmt.Sprintf("store can newly set only bits %#x", ms.mask)})
+					} else {
+						f.gwrites = append(f.gwrites, invGW{ins: x, obj: fa.X, maySet: true, how: "store may set the flag", bits: ms})
+					}
+				case *ssa.Call:
+					handled := false
+					if sc := x.Call.StaticCallee(); sc != nil && sc.Blocks != nil {
+						for j, a := range x.Call.Args {
+							if a != ssa.Value(fa) {
+								continue
+							}
+							sub, ok := p.paramWriteBits(sc, j, 0)
+							if !ok {
+								break
+							}
+							handled = true
+							if !sub.writes {
+								continue
+							}
+							set := p.substBits(sub.set, x.Call.Args)
+							if set.pure() && set.mask&inv.Mask == 0 {
+								f.gwrites = append(f.gwrites, invGW{ins: x, obj: fa.X, how: fmt.Sprintf("%s can newly set only bits %#x here", qname(sc), set.mask)})
+							} else {
+								f.gwrites = append(f.gwrites, invGW{ins: x, obj: fa.X, maySet: true, how: qname(sc) + " may set the flag here", bits: set})
+							}
+						}
+					}
+					if !handled {
+						f.gwrites = append(f.gwrites, invGW{ins: x, obj: fa.X, maySet: true, how: "the flag field's address is handed to a call that may write anything"})
+					}
+				case *ssa.MakeInterface:
+					for _, r2 := range *x.Referrers() {
+						if ci, ok := r2.(ssa.CallInstruction); ok {
+							f.gwrites = append(f.gwrites, invGW{ins: ci.(ssa.Instruction), obj: fa.X, maySet: true, how: "the flag field is decoded into through an interface"})
+						} else if _, ok := r2.(*ssa.DebugRef); !ok {
+							f.gwrites = append(f.gwrites, invGW{ins: r2, obj: fa.X, maySet: true, how: "the flag field's address escapes"})
+						}
+					}
+				default:
+					f.gwrites = append(f.gwrites, invGW{ins: r, obj: fa.X, maySet: true, how: fmt.Sprintf("the flag field's address is used by %T", r)})
+				}
+			}
+		}
+	}
+	// calls to internal helpers that may return with the invariant broken for one of their arguments
+	for _, b := range fn.Blocks {
+		for _, ins := range b.Instrs {
+			call, ok := ins.(*ssa.Call)
+			if !ok {
+				continue
+			}
+			h := call.Call.StaticCallee()
+			if h == nil || h == fn || !an.internal(h) {
+				continue
+			}
+			for k, a := range call.Call.Args {
+				if k >= len(h.Params) || !an.isObjPtr(a.Type()) {
+					continue
+				}
+				if set, breaks := an.breaks(h, k); breaks {
+					ms := p.substBits(set, call.Call.Args)
+					if ms.pure() && ms.mask&inv.Mask == 0 {
+						f.gwrites = append(f.gwrites, invGW{ins: call, obj: a, lifted: true, how: fmt.Sprintf("%s can newly set only bits %#x here", qname(h), ms.mask)})
+					} else {
+						f.gwrites = append(f.gwrites, invGW{ins: call, obj: a, maySet: true, lifted: true, how: "calls " + qname(h) + ", which may return with the flag set and " + an.fname + " not yet stored"})
+					}
+				}
+			}
+		}
+	}
+	return f
+}
+
+// breaks: may the internal helper h return with the flag of its parameter j newly set and f nil?  set: the bits
+// it may newly set, in terms of its own parameters.
+func (an *invAn) breaks(h *ssa.Function, j int) (bitSum, bool) {
+	key := fmt.Sprintf("%p|%d", h, j)
+	switch an.brk[key] {
+	case 1:
+		return bitSum{}, false
+	case 2:
+		return bitSum{all: true}, true
+	}
+	if an.active["b"+key] {
+		return bitSum{all: true}, true // recursion: assume the worst
+	}
+	an.active["b"+key] = true
+	defer delete(an.active, "b"+key)
+	f := an.fnOf(h)
+	res := false
+	set := bitSum{}
+	for _, w := range f.gwrites {
+		if !w.maySet || stripNilChk(w.obj) != ssa.Value(h.Params[j]) {
+			continue
+		}
+		if ok, _ := an.post(f, w.ins, w.obj); !ok {
+			res = true
+			// the bits this write may set, when known in terms of the helper's parameters
+			if w.bits.all || (w.bits.mask == 0 && len(w.bits.params) == 0) {
+				set = bitSum{all: true}
+			} else {
+				set = set.union(w.bits)
+			}
+		}
+	}
+	if res {
+		an.brk[key] = 2
+		if set.all {
+			return set, true
+		}
+		an.brk[key] = 0 // parameter-dependent: recomputed per call site (cheap), not cached as "all"
+		return set, true
+	}
+	an.brk[key] = 1
+	return bitSum{}, false
+}
+
+// summary of an internal or exported mq function h for its object parameter j.
+func (an *invAn) summary(h *ssa.Function, j int) invSum {
+	key := fmt.Sprintf("%p|%d", h, j)
+	if v, ok := an.sums[key]; ok {
+		return v
+	}
+	if an.active["s"+key] || h.Blocks == nil || j >= len(h.Params) {
+		return invSum{}
+	}
+	an.active["s"+key] = true
+	defer delete(an.active, "s"+key)
+	f := an.fnOf(h)
+	X := ssa.Value(h.Params[j])
+	sum := invSum{}
+	// storesF: a non-nil store of f (or a call that does) dominates every exit, none later may store nil
+	pts := an.fpoints(f, X)
+	all := true
+	nret := 0
+	for _, rb := range h.Blocks {
+		if _, ok := terminator(rb).(*ssa.Return); !ok {
+			continue
+		}
+		nret++
+		ok := false
+		for _, pt := range pts {
+			if pt.block.Dominates(rb) && pt.valOK(rb) {
+				later := false
+				for _, o := range pts {
+					if o.ins != pt.ins && (blocksReachableFrom(pt.block)[o.block] || o.block == pt.block && instrIndex(o.ins) > instrIndex(pt.ins)) {
+						later = true
+					}
+				}
+				if !later {
+					ok = true
+				}
+			}
+		}
+		if !ok {
+			all = false
+		}
+	}
+	sum.storesF = all && nret > 0
+	if ok, _ := an.post(f, nil, X); ok {
+		sum.establishes = true
+	}
+	an.sums[key] = sum
+	return sum
+}
+
+type invFPoint struct {
+	ins   ssa.Instruction
+	block *ssa.BasicBlock
+	valOK func(r *ssa.BasicBlock) bool
+}
+
+// fpoints: the places in f where field F of object X receives a non-nil value: stores, and calls to mq functions
+// that store it on all their paths.
+func (an *invAn) fpoints(f *invFn, X ssa.Value) []invFPoint {
+	prv := f.pr
+	xk := prv.key(stripNilChk(X))
+	var out []invFPoint
+	for _, b := range f.fn.Blocks {
+		for _, ins := range b.Instrs {
+			switch x := ins.(type) {
+			case *ssa.Store:
+				ffa, ok := an.isField(x.Addr, an.inv.F)
+				if !ok || prv.key(stripNilChk(ffa.X)) != xk {
+					continue
+				}
+				stt := x
+				out = append(out, invFPoint{ins: stt, block: b, valOK: func(r *ssa.BasicBlock) bool {
+					if prv.NonNil(stt.Val, stt.Block(), 0) {
+						return true
+					}
+					// dereferenced before the exit: a nil value would have panicked
+					if refs := stt.Val.Referrers(); refs != nil {
+						for _, rr := range *refs {
+							switch d := rr.(type) {
+							case *ssa.FieldAddr:
+								if d.X == stt.Val && d.Block().Dominates(r) {
+									return true
+								}
+							case *ssa.UnOp:
+								if d.Op == token.MUL && d.X == stt.Val && d.Block().Dominates(r) {
+									return true
+								}
+							}
+						}
+					}
+					return false
+				}})
+			case *ssa.Call:
+				h := x.Call.StaticCallee()
+				if h == nil || h.Blocks == nil || h == f.fn || h.Pkg == nil || h.Pkg.Pkg != an.p.Pkg {
+					continue
+				}
+				for k, a := range x.Call.Args {
+					if k < len(h.Params) && an.isObjPtr(a.Type()) && prv.key(stripNilChk(a)) == xk && an.summary(h, k).storesF {
+						out = append(out, invFPoint{ins: x, block: b, valOK: func(*ssa.BasicBlock) bool { return true }})
+					}
+				}
+			}
+		}
+	}
+	return out
+}
+
+// post: after instruction s (nil: from the function's entry, whatever the state was) the invariant holds for
+// object X on every exit reachable from there.
+func (an *invAn) post(f *invFn, s ssa.Instruction, X ssa.Value) (bool, string) {
+	p, inv, fn, prv := an.p, an.inv, f.fn, f.pr
+	xk := prv.key(stripNilChk(X))
+	pts := an.fpoints(f, X)
+	sBlock := fn.Blocks[0]
+	if s != nil {
+		sBlock = s.Block()
+	}
+	after := func(ins ssa.Instruction) bool { // ins comes after s
+		if s == nil {
+			return true
+		}
+		return sBlock.Dominates(ins.Block()) && (sBlock != ins.Block() || instrIndex(ins) > instrIndex(s))
+	}
+	// a later flag write between blocks from and rb (other than s itself)
+	dirtyBetween := func(from *ssa.BasicBlock, fromIns ssa.Instruction, rb *ssa.BasicBlock) bool {
+		for _, w := range f.gwrites {
+			if w.ins == s || !w.maySet || prv.key(stripNilChk(w.obj)) != xk {
+				continue
+			}
+			wb := w.ins.Block()
+			afterFrom := wb == from && (fromIns == nil || instrIndex(w.ins) > instrIndex(fromIns)) || wb != from && blocksReachableFrom(from)[wb]
+			if afterFrom && (wb == rb || blocksReachableFrom(wb)[rb]) {
+				return true
+			}
+		}
+		return false
+	}
+	for _, rb := range fn.Blocks {
+		if _, ok := terminator(rb).(*ssa.Return); !ok {
+			continue
+		}
+		if !(rb == sBlock || blocksReachableFrom(sBlock)[rb]) {
+			continue
+		}
+		ok := false
+		// (1) f is stored non-nil on every path to this exit
+		for _, pt := range pts {
+			if pt.block.Dominates(rb) && pt.valOK(rb) {
+				later := false
+				for _, o := range pts {
+					if o.ins != pt.ins && (blocksReachableFrom(pt.block)[o.block] || o.block == pt.block && instrIndex(o.ins) > instrIndex(pt.ins)) {
+						later = true
+					}
+				}
+				if !later {
+					ok = true
+				}
+			}
+		}
+		// (2) every path passes a test of the flag; its true side stores f non-nil
+		if !ok {
+			for _, tb := range fn.Blocks {
+				iff, isIf := terminator(tb).(*ssa.If)
+				if !isIf {
+					continue
+				}
+				ld, tfa, m, isT := flagTest(iff.Cond)
+				if !isT || m&inv.Mask != inv.Mask || tfa.Field != inv.G || prv.key(stripNilChk(tfa.X)) != xk {
+					continue
+				}
+				if !after(ld) {
+					continue // the flag is loaded before s
+				}
+				if s != nil && reachesAvoiding(sBlock, rb, map[*ssa.BasicBlock]bool{tb: true}) && sBlock != tb {
+					continue
+				}
+				if s == nil && !tb.Dominates(rb) {
+					continue
+				}
+				if dirtyBetween(tb, ld, rb) {
+					continue
+				}
+				for _, pt := range pts {
+					sb := pt.block
+					if !(sb == tb.Succs[0] || blocksReachableFrom(tb.Succs[0])[sb]) || !pt.valOK(sb) {
+						continue
+					}
+					if !reachesAvoiding(tb.Succs[0], rb, map[*ssa.BasicBlock]bool{sb: true}) || tb.Succs[0] == sb {
+						ok = true
+					}
+				}
+			}
+		}
+		// (3) a call on every path to this exit re-establishes the invariant whatever it finds
+		if !ok {
+			for _, b := range fn.Blocks {
+				for _, ins := range b.Instrs {
+					call, isCall := ins.(*ssa.Call)
+					if !isCall || !after(call) || !b.Dominates(rb) {
+						continue
+					}
+					h := call.Call.StaticCallee()
+					if h == nil || h.Blocks == nil || h == fn || h.Pkg == nil || h.Pkg.Pkg != p.Pkg {
+						continue
+					}
+					for k, a := range call.Call.Args {
+						if k < len(h.Params) && an.isObjPtr(a.Type()) && prv.key(stripNilChk(a)) == xk && an.summary(h, k).establishes && !dirtyBetween(b, call, rb) {
+							ok = true
+						}
+					}
+				}
+			}
+		}
+		if !ok {
+			return false, "an exit at " + posOf(p, terminator(rb)) + " can be reached with the flag possibly set and " + an.fname + " possibly nil"
+		}
+	}
+	return true, "every exit reachable from here re-establishes " + an.fname + " != nil whenever the flag is set"
+}
+
 // checkFlagInv proves inv over all writers; one obligation per writing site.
 func (p *Prog) checkFlagInv(c *Check, rule string, inv FlagInv) bool {
 	key := "inv:" + inv.key()
@@ -144,19 +598,9 @@ func (p *Prog) checkFlagInv(c *Check, rule string, inv FlagInv) bool {
 	}
 	okAll := true
 	st := inv.T.Underlying().(*types.Struct)
-	gname := inv.T.Obj().Name() + "." + st.Field(inv.G).Name()
-	fname := inv.T.Obj().Name() + "." + st.Field(inv.F).Name()
-	isField := func(a ssa.Value, idx int) (*ssa.FieldAddr, bool) {
-		fa, ok := a.(*ssa.FieldAddr)
-		if !ok || fa.Field != idx {
-			return nil, false
-		}
-		pt, ok := fa.X.Type().Underlying().(*types.Pointer)
-		if !ok || !types.Identical(pt.Elem(), inv.T) {
-			return nil, false
-		}
-		return fa, true
-	}
+	an := &invAn{p: p, inv: inv, fns: map[*ssa.Function]*invFn{}, sums: map[string]invSum{}, brk: map[string]int{}, active: map[string]bool{},
+		gname: inv.T.Obj().Name() + "." + st.Field(inv.G).Name(), fname: inv.T.Obj().Name() + "." + st.Field(inv.F).Name()}
+	gname, fname := an.gname, an.fname
 	record := func(cons, pos string, ok bool, how string) {
 		if c != nil {
 			if ok {
@@ -171,216 +615,29 @@ func (p *Prog) checkFlagInv(c *Check, rule string, inv FlagInv) bool {
 	}
 	nsites := 0
 	for _, fn := range p.AllFuncs() {
-		var pr *Prover
-		getPr := func() *Prover {
-			if pr == nil {
-				pr = NewProver(p, fn)
-				pr.assumeContracts()
-			}
-			return pr
-		}
-		// collect g-writing instructions of this function first (needed by post)
-		type gw struct {
-			ins    ssa.Instruction
-			fa     *ssa.FieldAddr
-			maySet bool
-			how    string
-		}
-		var gwrites []gw
-		for _, b := range fn.Blocks {
-			for _, ins := range b.Instrs {
-				fa, ok := ins.(*ssa.FieldAddr)
-				if !ok {
-					continue
-				}
-				if _, isG := isField(fa, inv.G); !isG {
-					continue
-				}
-				for _, r := range *fa.Referrers() {
-					switch x := r.(type) {
-					case *ssa.DebugRef, *ssa.UnOp:
-					case *ssa.Store:
-						if x.Addr != ssa.Value(fa) {
-							gwrites = append(gwrites, gw{x, fa, true, "the address of the flag field is stored"})
-							continue
-						}
-						prv := getPr()
-						isOld := func(v ssa.Value) bool {
-							ld, ok := v.(*ssa.UnOp)
-							if !ok || ld.Op != token.MUL {
-								return false
-							}
-							ofa, ok := isField(ld.X, inv.G)
-							if !ok || prv.key(stripNilChk(ofa.X)) != prv.key(stripNilChk(fa.X)) {
-								return false
-							}
-							return prv.verAt == nil || prv.loadVer[ld] == prv.verAt(x, classOf(fa))
-						}
-						ms := p.maySet(x.Val, isOld, 0)
-						if ms.pure() && ms.mask&inv.Mask == 0 {
-							gwrites = append(gwrites, gw{x, fa, false, fmt.Sprintf("store can newly set only bits %#x", ms.mask)})
-						} else {
-							gwrites = append(gwrites, gw{x, fa, true, "store may set the flag"})
-						}
-					case *ssa.Call:
-						handled := false
-						if sc := x.Call.StaticCallee(); sc != nil && sc.Blocks != nil {
-							for j, a := range x.Call.Args {
-								if a != ssa.Value(fa) {
-									continue
-								}
-								sub, ok := p.paramWriteBits(sc, j, 0)
-								if !ok {
-									break
-								}
-								handled = true
-								if !sub.writes {
-									continue
-								}
-								set := p.substBits(sub.set, x.Call.Args)
-								if set.pure() && set.mask&inv.Mask == 0 {
-									gwrites = append(gwrites, gw{x, fa, false, fmt.Sprintf("%s can newly set only bits %#x here", qname(sc), set.mask)})
-								} else {
-									gwrites = append(gwrites, gw{x, fa, true, qname(sc) + " may set the flag here"})
-								}
-							}
-						}
-						if !handled {
-							gwrites = append(gwrites, gw{x, fa, true, "the flag field's address is handed to a call that may write anything"})
-						}
-					case *ssa.MakeInterface:
-						// consumed by calls
-						n := 0
-						for _, r2 := range *x.Referrers() {
-							if ci, ok := r2.(ssa.CallInstruction); ok {
-								n++
-								gwrites = append(gwrites, gw{ci.(ssa.Instruction), fa, true, "the flag field is decoded into through an interface"})
-							} else if _, ok := r2.(*ssa.DebugRef); !ok {
-								gwrites = append(gwrites, gw{r2, fa, true, "the flag field's address escapes"})
-							}
-						}
-					default:
-						gwrites = append(gwrites, gw{r, fa, true, fmt.Sprintf("the flag field's address is used by %T", r)})
-					}
-				}
-			}
-		}
-		// post: after instruction s the invariant is re-established for object X on every exit
-		post := func(s ssa.Instruction, X ssa.Value) (bool, string) {
-			prv := getPr()
-			xk := prv.key(stripNilChk(X))
-			var fstores []*ssa.Store
-			for _, b := range fn.Blocks {
-				for _, ins := range b.Instrs {
-					if stt, ok := ins.(*ssa.Store); ok {
-						if ffa, ok := isField(stt.Addr, inv.F); ok && prv.key(stripNilChk(ffa.X)) == xk {
-							fstores = append(fstores, stt)
-						}
-					}
-				}
-			}
-			valOK := func(stt *ssa.Store, r *ssa.BasicBlock) bool {
-				if prv.NonNil(stt.Val, stt.Block(), 0) {
-					return true
-				}
-				// dereferenced before the exit: a nil value would have panicked
-				if refs := stt.Val.Referrers(); refs != nil {
-					for _, rr := range *refs {
-						switch d := rr.(type) {
-						case *ssa.FieldAddr:
-							if d.X == stt.Val && d.Block().Dominates(r) {
-								return true
-							}
-						case *ssa.UnOp:
-							if d.Op == token.MUL && d.X == stt.Val && d.Block().Dominates(r) {
-								return true
-							}
-						}
-					}
-				}
-				return false
-			}
-			for _, rb := range fn.Blocks {
-				if _, ok := terminator(rb).(*ssa.Return); !ok {
-					continue
-				}
-				if !(rb == s.Block() || blocksReachableFrom(s.Block())[rb]) {
-					continue
-				}
-				ok := false
-				// (1) f is stored non-nil on every path to this exit
-				for _, stt := range fstores {
-					if stt.Block().Dominates(rb) && valOK(stt, rb) {
-						later := false
-						for _, o := range fstores {
-							if o != stt && (blocksReachableFrom(stt.Block())[o.Block()] || o.Block() == stt.Block() && instrIndex(o) > instrIndex(stt)) {
-								later = true
-							}
-						}
-						if !later {
-							ok = true
-						}
-					}
-				}
-				// (2) every path passes a test of the flag; its true side stores f non-nil
-				if !ok {
-					for _, tb := range fn.Blocks {
-						iff, isIf := terminator(tb).(*ssa.If)
-						if !isIf {
-							continue
-						}
-						ld, tfa, m, isT := flagTest(iff.Cond)
-						if !isT || m&inv.Mask != inv.Mask || tfa.Field != inv.G || prv.key(stripNilChk(tfa.X)) != xk {
-							continue
-						}
-						// the flag is loaded after s
-						if !(s.Block().Dominates(ld.Block()) && (s.Block() != ld.Block() || instrIndex(ld) > instrIndex(s))) {
-							continue
-						}
-						if reachesAvoiding(s.Block(), rb, map[*ssa.BasicBlock]bool{tb: true}) && s.Block() != tb {
-							continue
-						}
-						// no other flag write between the test and the exit
-						clean := true
-						for _, w := range gwrites {
-							if w.ins == s || !w.maySet {
-								continue
-							}
-							wb := w.ins.Block()
-							if (wb == tb && instrIndex(w.ins) > instrIndex(ld) || blocksReachableFrom(tb)[wb]) && (wb == rb || blocksReachableFrom(wb)[rb]) {
-								clean = false
-							}
-						}
-						if !clean {
-							continue
-						}
-						for _, stt := range fstores {
-							sb := stt.Block()
-							if !(sb == tb.Succs[0] || blocksReachableFrom(tb.Succs[0])[sb]) || !valOK(stt, sb) {
-								continue
-							}
-							if !reachesAvoiding(tb.Succs[0], rb, map[*ssa.BasicBlock]bool{sb: true}) || tb.Succs[0] == sb {
-								ok = true
-							}
-						}
-					}
-				}
-				if !ok {
-					return false, "an exit at " + posOf(p, terminator(rb)) + " can be reached with the flag possibly set and " + fname + " possibly nil"
-				}
-			}
-			return true, "every exit reachable from here re-establishes " + fname + " != nil whenever the flag is set"
-		}
-		for i, w := range gwrites {
+		f := an.fnOf(fn)
+		for i, w := range f.gwrites {
 			nsites++
 			c2 := fmt.Sprintf("%s#%s-write%d", qname(fn), st.Field(inv.G).Name(), i+1)
 			if !w.maySet {
 				record(c2, posOf(p, w.ins), true, w.how+": cannot set "+fmt.Sprintf("%#x", inv.Mask))
 				continue
 			}
-			ok, how := post(w.ins, w.fa.X)
+			ok, how := an.post(f, w.ins, w.obj)
+			if !ok && an.internal(fn) {
+				if prm, isP := stripNilChk(w.obj).(*ssa.Parameter); isP && paramIndex(fn, prm) >= 0 {
+					// not repaired here: the obligation travels to every call site of this internal helper, where the
+					// call is a flag write of the caller
+					record(c2, posOf(p, w.ins), true, w.how+"; not re-established before "+qname(fn)+" returns — lifted to its "+fmt.Sprint(len(p.allEffects().callSitesOf[fn]))+" call site(s), each of which carries the obligation")
+					continue
+				}
+			}
 			record(c2, posOf(p, w.ins), ok, w.how+"; "+how)
 		}
+		if fn.Blocks == nil {
+			continue
+		}
+		prv := f.pr
 		// stores to f
 		nf := 0
 		for _, b := range fn.Blocks {
@@ -389,13 +646,12 @@ func (p *Prog) checkFlagInv(c *Check, rule string, inv FlagInv) bool {
 				if !ok {
 					continue
 				}
-				ffa, isF := isField(stt.Addr, inv.F)
+				_, isF := an.isField(stt.Addr, inv.F)
 				if !isF {
 					continue
 				}
 				nf++
 				nsites++
-				prv := getPr()
 				c2 := fmt.Sprintf("%s#%s-write%d", qname(fn), st.Field(inv.F).Name(), nf)
 				okv := prv.NonNil(stt.Val, b, 0)
 				how := "stores a non-nil value"
@@ -430,7 +686,6 @@ func (p *Prog) checkFlagInv(c *Check, rule string, inv FlagInv) bool {
 				if !okv {
 					how = "may store nil into " + fname + " while " + gname + " may have the flag set"
 				}
-				_ = ffa
 				record(c2, posOf(p, ins), okv, how)
 			}
 		}
